@@ -153,7 +153,11 @@ pub fn tok_case(p: TokCaseParams) -> BoxedStrategy<TokCase> {
             opts.dedup();
             let sentences = raw_sents
                 .iter()
-                .map(|r| assemble_sentence(r, &spec, user_rows, p.max_chars))
+                .map(|r| {
+                    let mut s = assemble_sentence(r, &spec, user_rows, p.max_chars);
+                    crate::gen::dict::exclude_known_astral(&spec, &mut s);
+                    s
+                })
                 .collect();
             TokCase {
                 spec,
